@@ -123,3 +123,15 @@ impl LldpService {
         }
     }
 }
+
+/// Verification hook (built only with `--cfg erbium_verif`): what the receive
+/// loop of `LldpService::run` does with the octets of one received frame.
+#[cfg(erbium_verif)]
+pub mod verif {
+    use crate::pktparser::Deserialise as _;
+    pub fn decode_frame(
+        frame: &[u8],
+    ) -> Result<super::lldppkt::LldpPacket, crate::pktparser::ParseError> {
+        super::lldppkt::LldpPacket::from_wire(&mut crate::pktparser::Buffer::new(&frame[14..]))
+    }
+}
